@@ -2697,6 +2697,19 @@ class op(object):
         inequalities = self.inequalities()
         equalities = self.equalities()
 
+        # the 8-character row and column labels must be distinct
+        for objs in (constraints, variables):
+            labels = []
+            for k in range(len(objs)):
+                if objs[k].name: name = objs[k].name
+                else: name = str(k)
+                labels += [ name[:(7-len(str(i)))] + '_' + str(i) 
+                    for i in range(len(objs[k])) ]
+            if len(set(labels)) < len(labels):
+                raise ValueError('the names of the variables and of the '\
+                    'constraints must be distinct after truncation to '\
+                    'the 8-character labels of the MPS format')
+
         f = open(filename,'w')
         f.write('NAME')
         if self.name: f.write(10*' ' + self.name[:8].rjust(8))
